@@ -152,3 +152,64 @@ def r2d_own_file_keys(ctx):
     r.counts["per_file_maps"] = ",".join(db.per_file_index())
     r.floor("writes to per-file index maps", n, 7)
     return r
+
+
+def _canonicalizing_fns(ctx):
+    """local functions whose returned value is computed from Path::canonicalize / get_canonical_path"""
+    import re
+    from .r3 import _slice_calls
+    out = set()
+    for f in ctx.bin.real_fns():
+        if f.kind not in ("method", "fn"):
+            continue
+        if "Path" not in f.ret:
+            continue
+        calls = set()
+        for bb, si, pl, rv, sp in f.assigns():
+            if place_local(pl) == 0:
+                for o in (rv[2] if rv[0] == "agg" else [rv[1]] if rv[0] == "use" else []):
+                    if isinstance(o, list):
+                        calls |= _slice_calls(ctx.bin, f, o)
+        for bb, c in f.calls():
+            if place_local(c["dest"]) == 0:
+                calls.add(c.get("res") or "?")
+                for a in c["args"]:
+                    calls |= _slice_calls(ctx.bin, f, a)
+        if any(re.search(r"Path::canonicalize$|::get_canonical_path$|fs::canonicalize$", x) for x in calls):
+            out.add(f.id)
+    return out
+
+
+def r2e_canonical_read_keys(ctx):
+    r = Result("R2e", "every lookup in a per-file index map (written under canonical paths only, R2d) uses a key that was "
+                      "canonicalised: its interprocedural origins are results of Path::canonicalize / get_canonical_path, of a local "
+                      "function returning such a value, or a record's stored file_path")
+    import re
+    db = _db(ctx)
+    canon = _canonicalizing_fns(ctx)
+    r.counts["canonicalizing_fns"] = ",".join(sorted(x.split("::")[-1] for x in canon))
+    n = 0
+    for m in db.per_file_index():
+        for op in db.ops_by_map.get(m, []):
+            if op.mode != "S" or len(op.call["args"]) < 2 or op.method not in ("get", "contains_key"):
+                continue
+            n += 1
+            bad = []
+            for t in db.origins.of_operand(op.fn, op.call["args"][1]):
+                if t[0] == "call" and (t[2] in canon or re.search(r"Path::canonicalize$|fs::canonicalize$", t[2] or "")):
+                    continue
+                fields = t[3] if len(t) > 3 and isinstance(t[3], tuple) else ()
+                if any(nm == "file_path" for _o, nm in fields):
+                    continue
+                if t[0] == "closure-param":
+                    continue
+                bad.append("%s %s" % (t[0], (t[2] if t[0] == "call" else t[1]).split("::")[-1] if len(t) > 2 else t[1]))
+            key = "R2e|%s|%s.%s" % (op.fn.id, m, op.method)
+            if bad:
+                r.violate(key, "`%s.%s()` in %s is keyed by a path that may not be canonical (%s): the lookup misses entries stored "
+                               "under the canonical path (symlinked workspace)" % (m, op.method, op.fn.id, sorted(set(bad))[:3]))
+            else:
+                r.ok(sample={"lookup": key})
+    r.floor("lookups in per-file index maps", n, 6)
+    r.floor("canonicalizing functions", len(canon), 2)
+    return r
